@@ -62,6 +62,47 @@ def run():
                 key = "c13:result-differs-from-solo"
             chk.report(key, "threads=%d racy_init=%d: %s (exit %d)" % (cfg[0], cfg[2], ev, rc), "ctx_%d_%d_%d.json" % (cfg[0], cfg[2], cfg[3]),
                        {"key": key, "config": cfg, "event": ev, "rc": rc, "tail": evs[-4:]})
+        # ---- race detector as the trace recorder: Ctx.tla says contexts share NOTHING but the idempotent process-wide init, so
+        #      every pair of conflicting unsynchronised accesses by two threads that ThreadSanitizer observes in the interpreter is a
+        #      counterexample to that, whether or not this schedule turned it into a wrong result
+        import shutil, re
+        if shutil.which("clang"):
+            tb = vlib.build_repo(sc.sub("build_tsan"), cflags="-fsanitize=thread -O1 -g", verif=False, cc="clang", ldflags="-fsanitize=thread")
+            texe = vlib.compile_c(tb, os.path.join(vlib.VERIF, "harness", "c", "ctxpar.c"), sc.file("ctxpar_tsan"),
+                                  extra=["-lpthread", "-fsanitize=thread", "-Wno-format-extra-args"], cc="clang", verif=False)
+            tconfigs = [(3, 1, 0), (4, 1, 1), (8, 2, 1)] + ([(16, 2, 0), (6, 3, 1), (2, 4, 0)] if chk.thorough else [])
+
+            def trun(cfg):
+                env = tb.env({"TSAN_OPTIONS": "halt_on_error=0 report_signal_unsafe=0 exitcode=0 history_size=4"})
+                try:
+                    p = subprocess.run([texe] + [str(x) for x in cfg], env=env, cwd=vlib.REPO, stdout=subprocess.PIPE, stderr=subprocess.PIPE, timeout=1200)
+                    return cfg, p.returncode, p.stdout.decode(errors="replace"), p.stderr.decode(errors="replace")
+                except subprocess.TimeoutExpired as ex:
+                    return cfg, -9, "", (ex.stderr or b"").decode(errors="replace")
+            races = 0
+            for cfg, rc, out, err in vlib.parallel(trun, tconfigs, jobs=3):
+                reports = err.split("WARNING: ThreadSanitizer: ")[1:]
+                if rc != 0 and not reports:
+                    chk.report("c13:tsan:crash:threads=%d" % cfg[0], "race-detector build: harness ended with status %d (threads=%d rounds=%d racy_init=%d)" % (rc, cfg[0], cfg[1], cfg[2]),
+                               "tsan_crash_%d.json" % cfg[0], {"config": cfg, "rc": rc, "stderr": err[-1500:]})
+                    continue
+                seen = set()
+                for rep in reports:
+                    frames = re.findall(r"#0 (\S+) ", rep)
+                    kind = rep.split(" ", 1)[0] + " " + rep.split("\n", 1)[0][:40]
+                    fn = "+".join(sorted(set(frames[:2]))) or "?"
+                    key = "c13:tsan:%s:%s" % (rep.split("(")[0].strip().replace(" ", "-")[:30], fn)
+                    if key in seen:
+                        continue
+                    seen.add(key)
+                    races += 1
+                    chk.report(key, "race detector (threads=%d rounds=%d racy_init=%d): %s" % (cfg[0], cfg[1], cfg[2], rep[:300].replace("\n", " | ")),
+                               "tsan_%s.json" % re.sub(r"[^A-Za-z0-9_]+", "_", key)[:80], {"key": key, "config": cfg, "report": rep[:4000]})
+                chk.cov["traces_validated_against_impl"] += 1
+            chk.cov["race_detector_runs"] = len(tconfigs)
+            chk.cov["race_reports"] = races
+        else:
+            chk.assumptions.append("clang is not installed: the race-detector phase was skipped")
         chk.cov["evaluations"] = nres + len(configs)
         chk.cov["distinct_nontrivial"] = len(configs)
         chk.cov["concurrent_context_lifetimes_validated"] = nres
@@ -69,7 +110,7 @@ def run():
         chk.sample({"threads": configs[0][0], "events": vlib.read_ndjson(sc.file("ctx_%d_%d_%d.ndjson" % (configs[0][0], configs[0][2], configs[0][3])))[:6]})
         if nres < 10 and not chk.violations:
             raise Broken("too few concurrent lifetimes validated")
-        chk.assumptions += ["OS-level interleavings are sampled (repetitions, thread counts, core pinning), not enumerated; data races without observable effect are not decided (needs a race detector)"]
+        chk.assumptions += ["OS-level interleavings are sampled (repetitions, thread counts, core pinning), not enumerated; data races are those ThreadSanitizer observes in the sampled runs (clang build of the tree without hooks)"]
     return chk.finish()
 
 
